@@ -147,7 +147,11 @@ def fit_cases(draw):
     rows = draw(st.integers(6, 24))
     scale = draw(st.sampled_from([0.3, 1.0, 1.0, 2.0]))
     X = [[scale * draw(models.signed_val()) for _ in range(width)] for _ in range(rows)]
-    return {"layer": "fit", "model": m, "X": X}
+    # every Config field may be non-default when fit starts; fit must hand back exactly this configuration
+    cfg = {"extra_validation": draw(st.sampled_from([False, False, True])),
+           "max_dt_sec": draw(st.sampled_from([0.1, 0.05, 0.5])),
+           "innovation_filtering": draw(st.sampled_from([None, 2.0, 5.0, 7.5]))}
+    return {"layer": "fit", "model": m, "X": X, "config": cfg}
 
 
 def fit_case(spec, ctx):
@@ -157,6 +161,8 @@ def fit_case(spec, ctx):
     X = np.array(spec["X"], float)
     with ctx.formak("Create", spec):
         ad = c16.make_adapter(m)
+        if spec.get("config"):
+            ad.set_params(**spec["config"])
     snap_model = ad.symbolic_model
     snap = {"sensor_models": copy.deepcopy(ad.sensor_models), "calibration_map": copy.deepcopy(ad.calibration_map), "config": ad.config}
     keys_pn = {str(k) for k in ad.process_noise}
@@ -185,6 +191,8 @@ def fit_case(spec, ctx):
         where = ctxmod.formak_frame(e.__traceback__)
         ctx.fail(f"fit-raised:{type(e).__name__}@{where}", "".join(traceback.format_exception(type(e), e, e.__traceback__))[-1800:], spec)
     ctx.event("fit:returned")
+    if spec.get("config", {}).get("extra_validation"):
+        ctx.event("fit:returned:extra_validation=True")
     if out is not ad:
         ctx.fail("fit-returned-other-object", f"{type(out)}", spec)
     if ad.symbolic_model is not snap_model or ad.sensor_models != snap["sensor_models"] or ad.calibration_map != snap["calibration_map"] or ad.config != snap["config"]:
